@@ -133,6 +133,9 @@ func compare(rec *opRec, got *xmltree.Node, streamNS string, s2s bool, local str
 // element.
 var partialForms = []string{"Send:reader-fails", "SendElement:payload-reader-fails", "Encode:xmlstream.Marshaler-fails", "Encode:xmlstream.WriterTo-fails", "TokenWriter:closed-mid-element",
 	"Send:reader-ends-with-element-open", "SendElement:payload-ends-with-element-open", "Send:context-ends-while-write-blocked",
+	// the same with an element several times the size of the encoder's buffer:
+	// its first part is on the wire when the transport stops taking more
+	"Send:context-ends-while-large-write-blocked",
 	// a token writer that flushed what it had and is then closed with its
 	// element still open; nothing follows but the end of the session
 	"TokenWriter:flushed-then-closed-mid-element",
@@ -599,6 +602,20 @@ func runHistory(c *core.Case) {
 		prec := &opRec{Actor: nActors, N: 0, Marker: "partial", Entry: "Partial", Form: partialForm, stanza: true, partial: true, TCall: clock.Add(1)}
 		var perr error
 		if c.Guard("Partial:"+partialForm, func() {
+			if partialForm == "Send:context-ends-while-large-write-blocked" {
+				// the transport takes the first write and stalls from the second on
+				ctx, cancel := context.WithTimeout(context.Background(), 20*time.Millisecond)
+				defer cancel()
+				p.Lib.SetWriteHook(func([]byte) { p.Lib.StallWrites(true) })
+				defer func() {
+					p.Lib.SetWriteHook(nil)
+					p.Lib.StallWrites(false)
+				}()
+				start := xml.StartElement{Name: xml.Name{Local: "message"}, Attr: []xml.Attr{attr(markAtt, "partial"), attr("type", "chat")}}
+				body := xml.StartElement{Name: xml.Name{Local: "body"}}
+				perr = p.S.Send(ctx, reader([]xml.Token{start, body, xml.CharData(strings.Repeat("large body ", 2000)), body.End(), start.End()}))
+				return
+			}
 			if partialForm == "Send:context-ends-while-write-blocked" {
 				// the peer does not read for a while and the call's context ends
 				// while its write is blocked: the write times out.  The calls that
@@ -711,6 +728,22 @@ func runHistory(c *core.Case) {
 		key := "wire:malformed"
 		if partialForm != "" {
 			key = "wire:after-partial:" + partialForm + ":malformed"
+		}
+		if partialForm == "Send:context-ends-while-large-write-blocked" {
+			// The first part of the large element is on the wire and the rest will
+			// never follow: the stream cannot be well-formed any more.  What the
+			// statement still demands is that no later call claims success: its
+			// element could not be a top-level element of this stream.
+			for _, rs := range recs {
+				for _, rec := range rs {
+					if rec.Entry == "AfterPartial" && rec.Err == "" {
+						c.Violate("wire:after-partial:"+partialForm+":ok-after-truncated-element", "%s(%s) returned nil after a call whose large element had been cut off in mid-write: whatever it wrote follows the truncated element\n…%q", rec.Entry, rec.Marker, wire[lo:hi])
+						return
+					}
+				}
+			}
+			c.Count("calls_refused_after_a_large_element_was_cut_off", 1)
+			return
 		}
 		// name the calls whose markers are near the break
 		var near []string
@@ -952,7 +985,7 @@ func trunc(s string) string {
 
 // Prop returns the C05 check.
 func Prop() *core.Prop {
-	req := []string{"histories", "histories_with_transmits_racing_close", "C10/transmits_overlapping_a_close", "sessions_from_the_default_negotiator", "s2s_sessions_whose_peer_header_omits_to", "received_sessions_from_the_default_negotiator", "received_s2s_sessions_from_the_default_negotiator", "stanzas_in_raw_token_form_unresolved_name_plus_xmlns_attribute", "histories_with_partial_failure", "partial:Send:reader-fails", "partial:SendElement:payload-reader-fails", "partial:Encode:xmlstream.Marshaler-fails", "partial:Encode:xmlstream.WriterTo-fails", "partial:TokenWriter:closed-mid-element", "partial:Send:reader-ends-with-element-open", "partial:SendElement:payload-ends-with-element-open", "partial:Send:context-ends-while-write-blocked", "partial:TokenWriter:flushed-then-closed-mid-element", "marshaled_values_with_a_comment_before_their_children", "non_stanzas_in_raw_token_form_unresolved_name_plus_xmlns_attribute", "partial:Encode:xmlstream.WriterTo-panics", "partial:Encode:xmlstream.Marshaler-panics", "partial:EncodeIQElement:marshaler-panics", "partial:SendIQ:reader-panics", "partial:SendElement:payload-reader-panics", "partial:Send:reader-panics", "component_streams", "invalid_argument_calls", "incoming_stanzas_nobody_answers", "handler_replies_after_refused_writes", "handler_replies_abandoned_in_mid_element", "handlers_that_abandon_another_element_and_leave_the_reply_to_the_session", "handler_replies_on_the_wire_before_the_rest_of_their_request_arrived", "calls_overlapping_another_actor", "elements_spanning_several_writes", "auto_replies", "wire_stanzas"}
+	req := []string{"histories", "histories_with_transmits_racing_close", "C10/transmits_overlapping_a_close", "sessions_from_the_default_negotiator", "s2s_sessions_whose_peer_header_omits_to", "received_sessions_from_the_default_negotiator", "received_s2s_sessions_from_the_default_negotiator", "stanzas_in_raw_token_form_unresolved_name_plus_xmlns_attribute", "histories_with_partial_failure", "partial:Send:reader-fails", "partial:SendElement:payload-reader-fails", "partial:Encode:xmlstream.Marshaler-fails", "partial:Encode:xmlstream.WriterTo-fails", "partial:TokenWriter:closed-mid-element", "partial:Send:reader-ends-with-element-open", "partial:SendElement:payload-ends-with-element-open", "partial:Send:context-ends-while-write-blocked", "partial:Send:context-ends-while-large-write-blocked", "partial:TokenWriter:flushed-then-closed-mid-element", "marshaled_values_with_a_comment_before_their_children", "non_stanzas_in_raw_token_form_unresolved_name_plus_xmlns_attribute", "partial:Encode:xmlstream.WriterTo-panics", "partial:Encode:xmlstream.Marshaler-panics", "partial:EncodeIQElement:marshaler-panics", "partial:SendIQ:reader-panics", "partial:SendElement:payload-reader-panics", "partial:Send:reader-panics", "component_streams", "invalid_argument_calls", "incoming_stanzas_nobody_answers", "handler_replies_after_refused_writes", "handler_replies_abandoned_in_mid_element", "handlers_that_abandon_another_element_and_leave_the_reply_to_the_session", "handler_replies_on_the_wire_before_the_rest_of_their_request_arrived", "calls_overlapping_another_actor", "elements_spanning_several_writes", "auto_replies", "wire_stanzas"}
 	for _, e := range []string{"Send", "SendElement", "Encode", "EncodeElement", "TokenWriter", "HandlerReply",
 		"SendIQ", "SendIQElement", "EncodeIQ", "EncodeIQElement", "UnmarshalIQ", "UnmarshalIQElement", "IterIQ", "IterIQElement",
 		"SendMessage", "SendMessageElement", "EncodeMessage", "EncodeMessageElement",
